@@ -1,7 +1,19 @@
 #!/usr/bin/env python3
 """Regenerates MANIFEST.json from the table below (one entry per property whose rule module
 exists under sa/rules)."""
-import json, os
+import json, os, sys
+
+sys.path.insert(0, "/verif")
+from sa.rules.includes import INCLUDES
+
+
+def inc_note(pid):
+    inc = INCLUDES.get(pid, [])
+    if not inc:
+        return ""
+    return (" Also re-runs, as necessary conditions of this property, the complete rule sets of %s (sa/rules/includes.py; their obligations are "
+            "filed as %s.<rule>)." % (", ".join(inc), pid))
+
 HERE = os.path.dirname(os.path.dirname(os.path.abspath(__file__)))
 props = [json.loads(l) for l in open(os.path.join(HERE, "properties.jsonl"))]
 TABLE = json.load(open(os.path.join(HERE, "tools", "claims.json")))
@@ -17,7 +29,7 @@ for p in props:
             "evidence_file": "evidence/%s.json" % pid,
             "replay_cmd_template": "/venv/bin/python check.py %s --replay {path}" % pid,
             "engine": "sa",
-            "level_claimed": {"category": "other", "text": t["level_text"], "design_ref": "DESIGN.md section 4, %s" % pid},
+            "level_claimed": {"category": "other", "text": t["level_text"] + inc_note(pid), "design_ref": "DESIGN.md section 4, %s" % pid},
             "level_note": t["level_note"],
             "technique": t["technique"],
         })
